@@ -787,7 +787,12 @@ def _one(case, ctx, faults):
                 raise Violation("C18/%s/%s" % (tool, prob[0]),
                                 "%s %s\ndevice fault %s\n%r" %
                                 (tool, " ".join(map(repr, argv)), ext, o.exc))
-            if o.exc is None and o.status == 0 and klass == "formula":
+            refused = ext == "stdout_enospc" or ctx.fired.get("enospc", 0)
+            if not refused:
+                # (the whole output fitted into what room there was)
+                ctx.probe("output shorter than the room on the device")
+            if refused and o.exc is None and o.status == 0 and \
+                    klass == "formula":
                 raise Violation(
                     "C18/%s/success-on-a-full-device" % tool,
                     "%s %s\ndevice fault %s: exit status 0 although the "
